@@ -177,6 +177,12 @@ class VCtx:
         xs, ys = list(xs), list(ys)
         if len(xs) != len(ys):
             return self.check(name, False)
+        if any(isinstance(v, (sym.SCx, complex)) for v in xs + ys):
+            # complex numbers: real and imaginary parts separately
+            lx, ly = [sym.SCx.lift(v) for v in xs], [sym.SCx.lift(v) for v in ys]
+            if any(v is None for v in lx + ly):
+                return self.check(name, False)
+            return self.check_equal(name, [v.re for v in lx] + [v.im for v in lx], [v.re for v in ly] + [v.im for v in ly], coeff_tol=coeff_tol)
         if not self.symbolic:
             if coeff_tol is not None:
                 return self.check(name, all(abs(x - y) <= 1e3 * coeff_tol * max(1.0, abs(x), abs(y)) for x, y in zip(xs, ys)))
